@@ -172,7 +172,9 @@ def _run_trace_shard(module: str, cfg: str, events: list[dict], idx: int, base: 
         raise Machinery(f"trace validation timed out ({module}, shard {idx}, {len(events)} events)")
     out = p.stdout + p.stderr
     if not vf.exists():
-        tail = "\n".join(out.strip().splitlines()[-40:])
+        lines = out.strip().splitlines()
+        first = next((n for n, l in enumerate(lines) if l.startswith("Error:")), max(0, len(lines) - 40))
+        tail = "\n".join(lines[first:first + 25] + ["..."] + lines[-6:])
         raise Machinery(f"trace validation produced no verdict ({module}, shard {idx}):\n{tail}")
     v = json.loads(vf.read_text())
     if v.get("n") != len(events):
